@@ -66,7 +66,7 @@ PROPS = {
     "C02": dict(level="model_checking", mc=[MC_FORMAT], steps=[trace(1, 4)]),
     "C03": dict(level="model_checking", mc=[MC_DECODER], steps=[trace(2, 16)]),
     "C08": dict(level="model_checking", mc=[MC_DECODER], steps=[trace(1, 2)]),
-    "C11": dict(level="model_checking", mc=[MC_DECODER], steps=[trace(1, 6)]),
+    "C11": dict(level="model_checking", mc=[MC_DECODER], steps=[trace(1, 6), dict(kind="apalache", module="Ind_Depth")]),
     "C12": dict(level="model_checking", mc=[MC_DECODER], steps=[trace(1, 4), dict(kind="apalache", module="Ind_Mem")]),
     "C13": dict(level="model_checking", mc=[MC_FORMAT], steps=[trace(1, 10)]),
     "C14": dict(level="model_checking", mc=[MC_FORMAT], steps=[trace(2, 12)]),
